@@ -405,7 +405,7 @@ pub fn gen_c18(rng: &mut Rng, i: u64, tier: Tier) -> Script {
         1 => {
             let mut r2 = rng.fork();
             let mut s = match r2.below(4) {
-                0 => crate::props_pipe::gen_c02(&mut r2, i, tier),
+                0 => crate::props_pipe::gen_c02(&mut r2, u64::MAX, tier),
                 1 => crate::props_dec::gen_c04(&mut r2, i, tier),
                 2 => crate::props_proto::gen_c13(&mut r2, u64::MAX / 2, tier),
                 _ => crate::props_proto::gen_c14(&mut r2, u64::MAX / 2, tier),
@@ -424,6 +424,9 @@ pub fn gen_c18(rng: &mut Rng, i: u64, tier: Tier) -> Script {
     match object {
         0 => {
             base_cfg(rng, &mut s, true);
+            if s.c("setter") != 0 && s.c("pre_reset") != 0 {
+                s.set("pre_reset", 0);
+            }
             let np = match rng.below(10) {
                 0 => rng.range(33_000, 120_000),
                 1 | 2 => rng.range(600, 6000),
